@@ -161,6 +161,50 @@ fn c15_asn_hex_part2() {
     asn_hex_part(2, [1, 0, 0])
 }
 
+/// Decimal AS numbers from the parser's side (formatting a symbolic integer is what exhausts CBMC
+/// in c15_asn_dec_display_parse): every string of exactly 10 decimal digits is accepted iff its
+/// value is <= 2^32-1 - the largest value Display prints in decimal - and then gives that value.
+fn asn_dec10(fixed: usize, prefix: [u8; 10]) {
+    let mut b: [u8; 10] = kani::any();
+    let mut v: u64 = 0;
+    let mut i = 0;
+    while i < 10 {
+        if i < fixed {
+            b[i] = prefix[i];
+        }
+        kani::assume(b[i] >= b'0' && b[i] <= b'9');
+        v = v * 10 + (b[i] - b'0') as u64;
+        i += 1;
+    }
+    let s = ascii_str(10, &b);
+    let got = Asn::from_str(s);
+    kani::cover!(got.is_ok() && v == 4294967295, "2^32-1 accepted");
+    kani::cover!(got.is_err(), "10-digit number beyond the decimal range refused");
+    match got {
+        Ok(a) => {
+            assert!(v <= u32::MAX as u64, "decimal AS number above 2^32-1 accepted");
+            assert!(a.0 == v, "decimal AS number parsed to another value");
+        }
+        Err(_) => {
+            assert!(v > u32::MAX as u64, "decimal AS number that Display produces is rejected by the parser");
+        }
+    }
+}
+
+// verif: prop=C15 tier=quick cap=1800 mem=12 bound="all decimal strings 429496dddd (4294960000 .. 4294969999, around 2^32-1)" fns="Asn::from_str,u64::from_str" stubs="none"
+#[kani::proof]
+#[kani::unwind(13)]
+fn c15_asn_dec10_boundary() {
+    asn_dec10(6, *b"4294960000")
+}
+
+// verif: prop=C15 tier=thorough cap=2400 mem=12 bound="all strings of exactly 10 decimal digits" fns="Asn::from_str,u64::from_str" stubs="none"
+#[kani::proof]
+#[kani::unwind(13)]
+fn c15_asn_dec10_all() {
+    asn_dec10(0, *b"0000000000")
+}
+
 // verif: prop=C15 tier=thorough cap=3000 mem=30 bound="every AS number in the BGP range (0 .. 2^32-1): decimal form" fns="Asn::fmt (Display),Asn::from_str" stubs="none"
 #[kani::proof]
 #[kani::unwind(22)]
